@@ -23,6 +23,7 @@ import (
 
 	badger "github.com/dgraph-io/badger/v2"
 	"github.com/marekgalovic/anndb/cluster"
+	amath "github.com/marekgalovic/anndb/math"
 	pb "github.com/marekgalovic/anndb/protobuf"
 	"github.com/marekgalovic/anndb/storage"
 	"github.com/golang/protobuf/proto"
@@ -40,7 +41,7 @@ import (
 // dataset whose single partition is hosted on node N only, "pnode-N" / "pnode+N" = node N is removed from /
 // added to the replica set of the last such partition; "rcreate:R:n1,n2" = a dataset with replication factor R whose
 // partition has the replicas n1,n2 (a replayed catalogue: the peers are announced afterwards); "rcreate!:..." = the same with a
-// stored raft snapshot that does not load (the partition's group fails to start); "rdelete" = that dataset is deleted (what a partition leader's allocator proposes when it
+// stored raft snapshot that does not load (the partition's group fails to start); "rdelete" = that dataset is deleted; "fwrite" = a client write without a deadline to that dataset (what a partition leader's allocator proposes when it
 // hears that a node left, or finds the partition under-replicated).
 type Scenario struct {
 	Name  string   `json:"name"`
@@ -299,6 +300,29 @@ func main() {
 				Partitions: []*pb.Partition{{Id: fpart.Bytes(), NodeIds: []uint64{n}}}})
 			pd, _ := proto.Marshal(&pb.DatasetManagerChange{Type: pb.DatasetManagerChangeType_DatasetManagerCreateDataset, NotificationId: uuid.NewV4().Bytes(), Data: dd})
 			g.push(entry{data: pd})
+		case strings.HasPrefix(st, "sleep:"):
+			var ms int
+			fmt.Sscanf(st, "sleep:%d", &ms)
+			time.Sleep(time.Duration(ms) * time.Millisecond)
+		case st == "fwrite":
+			// a client write WITHOUT a deadline (handler contexts and the CLI set none) to the dataset of the last
+			// rcreate; the harness goes on when the call has returned, or after 7 s (the server's own limit is 5 s)
+			if ds, err := dm.Get(fds); err == nil {
+				ret := make(chan error, 1)
+				go func() {
+					var id uuid.UUID
+					id[0], id[15] = 0x71, 1
+					ret <- ds.Insert(context.Background(), id, amath.Vector{1, 2}, nil)
+				}()
+				t0 := time.Now()
+				select {
+				case err := <-ret:
+					if os.Getenv("VERIF_CTRL_DEBUG") != "" {
+						fmt.Fprintln(os.Stderr, "fwrite returned after", time.Since(t0), err, ds.VerifPartitionNodes(0))
+					}
+				case <-time.After(7 * time.Second):
+				}
+			}
 		case st == "rdelete":
 			// the dataset of the last rcreate / fcreate is deleted (an entry proposed by another node)
 			nsteps++
